@@ -222,6 +222,13 @@ def unit_two_columns(a):
                                "second_block_swapped_values": n % 2 == 0, "pad": pad,
                                "templates": [pad + t for t in ["<%s>" % h1, "<%s> <%s>" % (h2, h1), "<<%s>>" % h2, "x", "<%s><%s" % (h1, h2), "<%s><%s><%s>" % (h1, h1, h1), "<%s><%s><%s><%s>" % (h1, h2, h1, h2), "<<%s>%s>" % (h1, h2), "<%s<%s>>" % (h1, h2)]]}
     sweep(stats, gen(), check_interp)
+    # placeholders that only FORM when an earlier column is filled in; a header holding a line feed (written \n in the table) next to texts that
+    # end / begin with its halves
+    sweep(stats, [{"sub": "interp", "headers": ["kind", "price-book"], "values": ["book", "42"], "templates": ["<price-<kind>>", "<kind>", "x<price-<kind>>y <price-book>", "<<kind>>", "<price-<kind>"]},
+                  {"sub": "interp", "headers": ["a", "ab"], "values": ["b", "1"], "templates": ["<a<a>>", "<<a>b>", "<ab>", "<a><a<a>>"]},
+                  {"sub": "interp", "headers": ["g\nn", "z"], "values": ["V", "W"], "templates": ["a <g", "n> b", "<g\nn>", "<z>", "<g", "n>"]},
+                  {"sub": "interp", "headers": ["g", "n"], "values": ["V\nW", "<g"], "templates": ["<n>", "<g>", "x <n", "g> y"]},
+                  {"sub": "interp", "headers": ["h"], "values": ["v"], "templates": ["<h", "h>", "<h>", "h", ">", "<"]}], check_interp)
     return stats
 
 
